@@ -3,6 +3,7 @@ Run as:  python -m harness.impl_worker in.json out.json   (device count fixed by
 from __future__ import annotations
 
 import json
+import os
 import sys
 import traceback
 from fractions import Fraction
@@ -21,6 +22,24 @@ TABS: dict = {}
 SOLVERS: dict = {}
 SWEEPERS: dict = {}
 EXTRA: dict = {}
+BASE = {"dir": None}
+
+
+def real_dir(dirid):
+    import os
+    assert BASE["dir"], "basedir op missing"
+    return os.path.join(BASE["dir"], dirid)
+
+
+def list_dir(path):
+    import os
+    if not os.path.isdir(path):
+        return False, False, [], []
+    names = os.listdir(path)
+    steps = sorted(int(n) for n in names if n.isdigit())
+    other = sorted(n for n in names if not n.isdigit() and n != "config.yaml")
+    return True, "config.yaml" in names, steps, other
+
 LOG: list = []
 
 
@@ -153,7 +172,7 @@ def do(op: dict) -> str:
             kw["random_seed"] = op.get("random_seed", 0)
         if op.get("f", 0):
             kw["checkpoint_frequency"] = op["f"]
-            kw["checkpoint_dir"] = op["ckpt_dir"]
+            kw["checkpoint_dir"] = real_dir(op["dir"])
             kw["max_checkpoints"] = op.get("m", 1)
             kw["enable_async_checkpointing"] = bool(op.get("async", 0))
         try:
@@ -260,6 +279,61 @@ def do(op: dict) -> str:
         kind, sv = SOLVERS[op["sid"]]
         sv.policy = jnp.asarray(np.asarray(sv.problem.action_space)[np.array(op["pol"], dtype=int)])
         return "ok"
+    if o == "basedir":
+        BASE["dir"] = op["path"]
+        return "ok"
+    if o == "ls":
+        import orbax.checkpoint as ocp
+        path = real_dir(op["dir"])
+        tsid = op.get("template_sid")
+        if tsid not in SOLVERS:
+            tsid = op.get("template_fallback")
+        if tsid in SOLVERS and getattr(SOLVERS[tsid][1], "checkpoint_manager", None) is not None:
+            SOLVERS[tsid][1].checkpoint_manager.wait_until_finished()
+        for kind_, sv_ in SOLVERS.values():
+            cm = getattr(sv_, "checkpoint_manager", None)
+            if cm is not None:
+                cm.wait_until_finished()
+        created, cfg, steps, other = list_dir(path)
+        vals, iters = [], []
+        if steps and tsid in SOLVERS:
+            mgr = ocp.CheckpointManager(path)
+            for k in steps:
+                st = mgr.restore(k, args=ocp.args.StandardRestore(SOLVERS[tsid][1].solver_state))
+                vals.append(fvals(st.values)); iters.append(str(int(st.info.iteration)))
+            mgr.close()
+        return (f"created={'true' if created else 'false'} config={'true' if cfg else 'false'} steps={flist(steps)} "
+                f"stepvals={';'.join(vals)} stepiters={flist(iters)} other={'+'.join(other) if other else '-'}")
+    if o == "restore":
+        cls = solver_class(op["solver"])
+        kw = {}
+        if "step" in op:
+            kw["step"] = op["step"]
+        if "newdir" in op:
+            kw["new_checkpoint_dir"] = real_dir(op["newdir"])
+        if "f" in op:
+            kw["checkpoint_frequency"] = op["f"]
+        if "m" in op:
+            kw["max_checkpoints"] = op["m"]
+        if "async" in op:
+            kw["enable_async_checkpointing"] = bool(op["async"])
+        try:
+            sv = cls.restore(real_dir(op["dir"]), **kw)
+        except Exception as e:  # noqa: BLE001
+            return f"error={err_class(e)} msg={str(e)[:60].replace(' ', '_').replace('=', ':')}"
+        attach_sink()
+        SOLVERS[op["sid"]] = (op["solver"], sv)
+        PROBLEMS.setdefault(op.get("id", "_restored_" + op["sid"]), sv.problem)
+        extra = (f" cfg_f={sv.checkpoint_frequency} cfg_m={sv.max_checkpoints} cfg_async={int(bool(sv.enable_async_checkpointing))} "
+                 f"cfg_dir={'-' if getattr(sv, 'checkpoint_dir', None) is None else os.path.basename(str(sv.checkpoint_dir))}")
+        return "ok " + state_line(op["solver"], sv, False, 0, []) + extra
+    if o == "load":
+        kind, sv = SOLVERS[op["sid"]]
+        try:
+            sv.load_checkpoint(real_dir(op["dir"]), step=op.get("step"))
+        except Exception as e:  # noqa: BLE001
+            return f"error={err_class(e)} msg={str(e)[:60].replace(' ', '_').replace('=', ':')}"
+        return "ok " + state_line(kind, sv, False, 0, [])
     if o == "setvalues":
         kind, sv = SOLVERS[op["sid"]]
         sv.values = jnp.array([float(Fraction(x)) for x in op["V"]], dtype=jnp.float64)
@@ -273,6 +347,8 @@ def do(op: dict) -> str:
             sv.solve(max_iterations=op["k"])
         except Exception as e:  # noqa: BLE001
             return f"error={err_class(e)} msg={str(e)[:60].replace(' ', '_').replace('=', ':')}"
+        if getattr(sv, "checkpoint_manager", None) is not None:
+            sv.checkpoint_manager.wait_until_finished()
         conv = any(("Convergence threshold reached" in m) or ("Policy converged" in m) for m in LOG)
         saves = []
         for m in LOG:
